@@ -84,6 +84,7 @@ type relOp struct {
 type bridgeHist struct {
 	lh        *lockHist
 	mutNext   int // next deposit mutator (C03): mutators are used in turn
+	quiet     bool // the bridge workload runs as traffic only (C07): its oracles belong to other checks and are not reported here
 	bc        *world.BtcChain
 	voted     map[uint64][]byte
 	votedTip  uint64
@@ -122,6 +123,10 @@ func newBridgeHist(lh *lockHist) *bridgeHist {
 }
 
 func (b *bridgeHist) viol(sig, detail string) {
+	if b.quiet {
+		b.lh.c.Count("bridge_findings_left_to_their_own_checks", 1)
+		return
+	}
 	b.lh.c.Violation(sig, fmt.Sprintf("height %d: %s", b.lh.ch.Height, detail), b.lh.replay())
 }
 
